@@ -5,3 +5,7 @@ VARIANTS = {"default": (), "scen_n1": (), "n2": ("CO_SSDO_N=2",)}
 def run(ctx):
     import sdo_scen
     sdo_scen.run(ctx, "dl")
+    # direction code -> spec: recorded dialogues of a PRNG client (random objects, sizes, block sizes, acknowledges,
+    # deviations; real block size) validated by TLC against CoSsdo (CoSsdoTrace)
+    import sdo_trace
+    sdo_trace.run(ctx, 700 if ctx.tier == "quick" else 25000, ndlg=8)
